@@ -750,9 +750,16 @@ func lockScenario(seed int64) int {
 	go func() { // the application writing output
 		defer wg.Done()
 		rr := newPrng(uint64(seed) + 1)
+		toggles := []string{"\x1b[?1000h", "\x1b[?1006h", "\x1b[?1006l", "\x1b[?1005h", "\x1b[?1005l", "\x1b[?1003h", "\x1b[=5u", "\x1b[=0u",
+			"\x1b[>4;2m", "\x1b[>4m", "\x1b[?1h", "\x1b[?1l", "\x1b[>3u", "\x1b[<u", "\x1b[?1049h", "\x1b[?1049l", "\x1b[?1000h"}
 		for k := 0; k < 25; k++ {
 			cs := genCase(prof, rr)
 			data := concatInput(&cs)
+			// the state read by SendKey / mouse reports keeps changing
+			for j := 0; j < 12; j++ {
+				data = append(data, pick(rr, toggles)...)
+			}
+			data = append(data, "\x1b[?1002h"...)
 			for off := 0; off < len(data); {
 				n := 1 + rr.intn(40)
 				if off+n > len(data) {
